@@ -208,7 +208,7 @@ fn related(rng: &mut Rng, p: &Ivs) -> Ivs {
 
 pub fn run(p: &Params, rep: &mut Report) {
     let mut rng = p.rng(12);
-    let n = p.size(1500, 60_000);
+    let n = p.size(30_000, 400_000);
     for i in 0..n {
         let a = gen_intervals(&mut rng, 6);
         let b = if rng.chance(1, 2) { related(&mut rng, &a) } else { gen_intervals(&mut rng, 6) };
